@@ -52,7 +52,17 @@ def build(env, per_cell, with_par=True):
                     s.call("export", ctx="R", exctx="aa", len=L)
                 if with_par:
                     s.call("export_par", ctx=rnd.choice("SR"), exctx=g.rbytes(4), len=rnd.choice([1, 32, 100]), threads=rnd.choice([2, 4, 8]), reps=rnd.choice([1, 20]))
+                    # different small values exported concurrently from one context, many times
+                    s.call("export_par", ctx=rnd.choice("SR"), exctx=g.rbytes(rnd.choice([0, 3, 15])), len=rnd.choice([8, 16, 32]), threads=rnd.choice([4, 8]),
+                           reps=rnd.choice([100, 1000]), vary=1)
                     s.call("export", ctx="S", exctx="bb", len=8)
+                    # key objects deserialized once and used concurrently by several threads for the first time
+                    m2 = dict(mode=mode)
+                    if mode in (1, 3):
+                        m2.update(psk=[l for l in s.lines if " setup_s " in l][0].split(" psk=")[1].split()[0], pskid=[l for l in s.lines if " setup_s " in l][0].split(" pskid=")[1].split()[0])
+                    s.call("setup_r_par", skr="$kR.sk", enc="$S.enc", info="-", threads=rnd.choice([4, 8]), pks="$kS.pk" if mode in (2, 3) else None, **m2)
+                    s.call("setup_s_par", pkr="$kR.pk", info="-", rng=g.rbytes(gen.nsk(kem)), threads=rnd.choice([4, 8]),
+                           sks="$kS.sk" if mode in (2, 3) else None, pks="$kS.pk" if mode in (2, 3) else None, **m2)
                 s.call("gen_keypair", rng=g.rbytes(gen.nsk(kem)))
     return cw
 
@@ -197,13 +207,22 @@ def check_par(env, res):
     """concurrent exports through a shared reference must all equal the sequential export"""
     for s in res.sessions:
         for i, op in enumerate(s.ops):
-            if op.op != "export_par" or op.ret is None:
+            if op.ret is None or not op.ok():
                 continue
-            env.count("evaluations", 1)
-            if op.ret.get("distinct") != "1":
-                env.violation("C18:shared_export_diverges", "%s concurrent exports from one context returned %s distinct values" % (op.ret.get("threads"), op.ret.get("distinct")),
-                              case_text=s.case_text(op.id), workload="placement")
-            env.count("shared_export_threads", int(op.ret.get("threads", 0)))
+            if op.op == "export_par":
+                env.count("evaluations", 1)
+                if op.ret.get("mism", "0") != "0" or (op.args.get("vary") != "1" and op.ret.get("distinct") != "1"):
+                    env.violation("C18:shared_export_diverges", "concurrent exports through a shared reference from %s threads: %s of %s calls returned something else than the same call made sequentially" % (
+                        op.ret.get("threads"), op.ret.get("mism"), op.ret.get("calls")), case_text=s.case_text(op.id), workload="placement")
+                env.count("shared_export_threads", int(op.ret.get("threads", 0)))
+                env.count("shared_export_calls", int(op.ret.get("calls", 0)))
+            elif op.op in ("setup_r_par", "setup_s_par"):
+                env.count("evaluations", 1)
+                env.count("shared_key_setups", int(op.ret.get("threads", 0)))
+                if op.ret.get("distinct") != "1":
+                    env.violation("C18:shared_key_diverges:%s" % op.op, "%s threads running %s concurrently through shared references to freshly deserialized keys produced %s distinct results (the sequential call afterwards gives %s)" % (
+                        op.ret.get("threads"), "setup_receiver" if op.op == "setup_r_par" else "setup_sender", op.ret.get("distinct"), str(op.ret.get("value"))[:40]),
+                        case_text=s.case_text(op.id), workload="placement")
 
 
 def tsan_reports(text):
